@@ -79,6 +79,8 @@ type sample struct {
 	c0, c3         time.Time
 }
 
+func smp(t0, t1, t2, t3 ts) sample { return sample{t0: t0, t1: t1, t2: t2, t3: t3} }
+
 func (s sample) T0() time.Time {
 	if s.mono {
 		return s.c0
@@ -113,19 +115,6 @@ func fmtLops(ops []lop) string {
 		}
 	}
 	return lib.L(it...)
-}
-
-func luckyNew(cap, pick int64) {
-	pan := false
-	func() {
-		defer func() {
-			if recover() != nil {
-				pan = true
-			}
-		}()
-		_ = client.NewLuckyPacketFilter(int(cap), int(pick))
-	}()
-	w.Case("lucky.new", "", lib.V(lib.I(cap), lib.I(pick)), lib.Bool(pan))
 }
 
 func luckyHist(cap, pick int, ops []lop, tags string) { luckyHistK("lucky.hist", cap, pick, ops, tags) }
@@ -363,10 +352,10 @@ func wildTs(r *lib.Rng) ts {
 }
 
 func wildSample(r *lib.Rng) sample {
-	s := sample{wildTs(r), wildTs(r), wildTs(r), wildTs(r)}
+	s := smp(wildTs(r), wildTs(r), wildTs(r), wildTs(r))
 	if r.Intn(2) == 0 { // only one or two stamps wild
 		t0 := base.add(r.Range(0, 1000000000000))
-		n := sample{t0, t0.add(r.Range(0, 50000000)), t0.add(r.Range(0, 50000000)), t0.add(r.Range(0, 100000000))}
+		n := smp(t0, t0.add(r.Range(0, 50000000)), t0.add(r.Range(0, 50000000)), t0.add(r.Range(0, 100000000)))
 		switch r.Intn(4) {
 		case 0:
 			n.t1 = s.t1
@@ -417,10 +406,17 @@ func genLucky(r *lib.Rng, long bool) {
 	case 1:
 		cap = lib.Pick(r, 1, 2, 3)
 	}
+	large := r.Intn(40) == 0
+	if large { // sparse large capacities, histories long enough to fill the window
+		cap = lib.Pick(r, 17, 17, 31, 31, 32, 32, 32, 33, 33, 33, 64, 64, 100)
+	}
 	pick := 1 + r.Intn(cap+2)
 	switch r.Intn(6) {
 	case 0:
 		pick = 1 + r.Intn(20)
+		if large {
+			pick = 1 + r.Intn(2*cap)
+		}
 	case 1:
 		pick = cap
 	case 2:
@@ -431,7 +427,10 @@ func genLucky(r *lib.Rng, long bool) {
 	if long {
 		n = 20 + r.Intn(180)
 	}
-	ties := r.Intn(6) == 0
+	if large {
+		n = cap + 3 + r.Intn(cap+10)
+	}
+	ties := r.Intn(6) == 0 && !large
 	omode := r.Intn(7)
 	wild := r.Intn(12) == 0
 	// distinct round-trip delays: a random injection into a spread of values
@@ -479,6 +478,9 @@ func genLucky(r *lib.Rng, long bool) {
 	}
 	if ties {
 		t = append(t, "ties")
+	}
+	if large {
+		t = append(t, fmt.Sprintf("cap%d", cap))
 	}
 	if wild {
 		t = append(t, "wild")
@@ -623,19 +625,19 @@ func edgeSample(r *lib.Rng) (sample, string) {
 	}
 	switch r.Intn(12) {
 	case 0: // identical timestamps
-		return sample{t0, t0, t0, t0}, "same"
+		return smp(t0, t0, t0, t0), "same"
 	case 1: // zero delay, some offset
 		t1 := t0.add(r.Range(-1000000000, 1000000000))
-		return sample{t0, t1, t1, t0}, "zerodelay"
+		return smp(t0, t1, t1, t0), "zerodelay"
 	case 2: // negative round trip: the reply arrives before the request left
 		t1 := t0.add(r.Range(-1000000, 1000000))
-		return sample{t0, t1, t1.add(d()), t0.add(-1 - d())}, "negrtd"
+		return smp(t0, t1, t1.add(d()), t0.add(-1 - d())), "negrtd"
 	case 3: // negative server processing time
 		t1 := t0.add(d() + r.Range(-1000000, 1000000))
-		return sample{t0, t1, t1.add(-1 - d()), t0.add(d())}, "negproc"
+		return smp(t0, t1, t1.add(-1 - d()), t0.add(d())), "negproc"
 	case 4: // hi < lo: cRx - sTx < cTx - sRx
 		t1 := t0.add(-d() - 1)
-		return sample{t0, t1, t1.add(d() + 5), t1.add(3)}, "hiltlo"
+		return smp(t0, t1, t1.add(d() + 5), t1.add(3)), "hiltlo"
 	case 5, 6: // one-way differences between 2^62 and 2^63 ns: beyond the closeness range, not saturating
 		neg := r.Intn(2) == 0
 		t1 := shift(t0, mag(62, 63), neg)
@@ -643,7 +645,7 @@ func edgeSample(r *lib.Rng) (sample, string) {
 		if r.Intn(3) == 0 { // the way back differs in sign
 			t2 = shift(t0, mag(62, 63), !neg)
 		}
-		return sample{t0, t1, t2, t0.add(d())}, "far"
+		return smp(t0, t1, t2, t0.add(d())), "far"
 	case 7: // more than 292 years apart: Time.Sub saturates, one way or both, either sign
 		neg := r.Intn(2) == 0
 		t1 := shift(t0, mag(63, 66), neg)
@@ -654,10 +656,10 @@ func edgeSample(r *lib.Rng) (sample, string) {
 		case 1:
 			t2 = shift(t0, mag(63, 66), !neg)
 		}
-		return sample{t0, t1, t2, t0.add(d())}, "sat"
+		return smp(t0, t1, t2, t0.add(d())), "sat"
 	case 8: // the corner: both differences saturated at +292 years (Inv(int64(2^63)) = MaxInt64)
 		t1 := shift(t0, mag(63, 66), true)
-		return sample{t0, t1, t1.add(d()), t0.add(d())}, "corner"
+		return smp(t0, t1, t1.add(d()), t0.add(d())), "corner"
 	case 9: // just below the corner: 2^64 - 2^14 - 2^16 < lo + hi < 2^64 - 2^14, not saturated
 		a := r.Range(0, 1<<14)
 		b := 1<<14 - 1 - a + r.Range(0, 1<<10) // a + b >= 2^14 - 1: lo + hi < 2^64 - 2^14
@@ -667,7 +669,7 @@ func edgeSample(r *lib.Rng) (sample, string) {
 		t1 := shift(t0, new(big.Int).SetInt64(maxI64-a), true)
 		t3 := t0.add(d())
 		t2 := shift(t3, new(big.Int).SetInt64(maxI64-b), true)
-		return sample{t0, t1, t2, t3}, "nearcorner"
+		return smp(t0, t1, t2, t3), "nearcorner"
 	case 10: // the mirror image: both differences at -292 years (Inv saturates, correct sign)
 		a, b := r.Range(0, 1<<12), r.Range(0, 1<<12)
 		t1 := shift(t0, new(big.Int).SetInt64(maxI64-a), false)
@@ -676,7 +678,7 @@ func edgeSample(r *lib.Rng) (sample, string) {
 		if r.Intn(3) == 0 {
 			t1, t2 = shift(t0, mag(63, 66), false), shift(t3, mag(63, 66), false)
 		}
-		return sample{t0, t1, t2, t3}, "negcorner"
+		return smp(t0, t1, t2, t3), "negcorner"
 	default:
 		return wildSample(r), "mixed"
 	}
@@ -987,7 +989,7 @@ func cornerCases() {
 		{-20001, -20001}, // outside the corner
 		{-1, -30001},     // outside the corner, one difference saturated
 	} {
-		s := sample{at(c[0]), zero, zero, at(c[1])}
+		s := smp(at(c[0]), zero, zero, at(c[1]))
 		tag := "in"
 		if !inCorner(s) {
 			tag = "out"
@@ -1092,14 +1094,28 @@ func parseLists(tok []string, i int) (out [][][]string) {
 }
 
 func sampleOf(f []string) sample {
-	return sample{parseTs(f[0]), parseTs(f[1]), parseTs(f[2]), parseTs(f[3])}
+	return smp(parseTs(f[0]), parseTs(f[1]), parseTs(f[2]), parseTs(f[3]))
 }
 
 func replay(kind, tags, args string) {
 	tok := tokens(args)
 	switch kind {
 	case "lucky.new":
-		luckyNew(lib.ParseI(tok[0]), lib.ParseI(tok[1]))
+		var ops []lop
+		if len(tok) > 2 {
+			for _, o := range parseOps(tok, 2) {
+				if o[0] == "1" {
+					ops = append(ops, lop{do: true, s: sampleOf(o[1:])})
+				} else {
+					ops = append(ops, lop{})
+				}
+			}
+		}
+		luckyNewOps(lib.ParseI(tok[0]), lib.ParseI(tok[1]), ops)
+	case "lucky.inter", "ntimed.inter":
+		replayInter(kind, tok)
+	case "ntimed.epochsrc":
+		epochSrc()
 	case "lucky.hist", "lucky.wild":
 		var ops []lop
 		for _, o := range parseOps(tok, 2) {
@@ -1187,9 +1203,42 @@ func main() {
 	if a.Tier == "thorough" {
 		n = 15000
 	}
+	buildNotes()
 	corpus()
 	cornerCases()
+	epochSrc()
+	for _, c := range bigCaps {
+		for _, p := range []int{1, c / 2, c, c + 5} {
+			if c == 256 && p != c/2 {
+				continue
+			}
+			luckyNew(int64(c), int64(p))
+		}
+	}
+	{ // one history on the largest capacity: fills the window and wraps
+		var ops []lop
+		for i := 0; i < 256+40; i++ {
+			rtd := 1000000 + int64((uint64(i)*2654435761)%1000003)
+			ops = append(ops, lop{do: true, s: mkSample(i, genOffset(r, 0), rtd, rtd/2, 0)})
+		}
+		luckyHist(256, 100, ops, "nt,wrap,cap256")
+	}
+	for _, ln := range []int{300, 600} {
+		genLuckyLong(r, ln)
+		genNtimedLong(r, ln)
+	}
+	if a.Tier == "thorough" {
+		genLuckyLong(r, 70000)
+		genNtimedLong(r, 70000)
+	}
+	for i := 0; i < 6; i++ {
+		monoHist(r)
+	}
 	for i := 0; i < n; i++ {
+		if i%6 == 0 {
+			genLuckyInter(r)
+			genNtimedInter(r)
+		}
 		genLucky(r, i%40 == 0)
 		genNtimed(r, i%8 == 0)
 		if i%50 == 0 {
